@@ -406,6 +406,9 @@ _on_refactoring('C02', 'hb5+view-alias', 'HB-5', 'logic_sim.py', 'logic.bp4v_and
 
 mut('C10', 'substitute-prunes-early', 'circuit.py', "                if l.driver in node_map:\n                    unused.append(node_map[l.driver])\n                continue", "                if l.driver in node_map:\n                    self.remove_dangling_nodes(node_map[l.driver])\n                continue", 'C10.function')   # F16
 
+mut('C11', 'onebit-bus-bare-name', 'verilog.py', "                    if s not in c.forks and s in sig_decls and len(sig_decls[s].names) == 1:\n                        s = sig_decls[s].names[0]  # a 1-bit bus read by its bare name\n", "", 'C11.netlist')   # F17
+mut('C10', 'substitute-fork-gap', 'circuit.py', "            if n.circuit is not None and n.kind == '__fork__' and any(l is None for l in n.outs):", "            if False and n.kind == '__fork__' and any(l is None for l in n.outs):", 'C10.function')   # F18
+
 
 # rules that are decided by evaluation when the code is inside the evaluator subset report under the evaluated rule's id
 _EVALUATED_ALIAS = {
